@@ -1,7 +1,8 @@
 (* Property C12 — ReadCSV parses RFC 4180 input faithfully for any fragmentation of the stream.
-   Statements only; proofs are in Proofs/CsvSpecProofs.v, Proofs/CsvReadProofs.v, Proofs/CsvFragProofs.v. *)
+   Statements only; proofs are in Proofs/CsvSpecProofs.v, Proofs/CsvReadProofs.v, Proofs/CsvFragProofs.v
+   (finite sweep) and Proofs/CsvFragFullBase.v, CsvFragFullField.v, CsvFragFull.v (general fragmentation). *)
 From QF Require Import Base.Prelude Model.FastCsv Model.CsvSpec Model.CsvWrite Model.CsvRead
-  Proofs.CsvSpecProofs Proofs.CsvReadProofs Proofs.CsvFragProofs.
+  Proofs.CsvSpecProofs Proofs.CsvReadProofs Proofs.CsvFragProofs Proofs.CsvFragFull.
 Local Open Scope N_scope.
 
 (* ---- 1. C12_rfc: the character machine inverts the renderer.
@@ -123,16 +124,74 @@ Print Assumptions C12_readcsv.
 Print Assumptions C12_detect.
 Print Assumptions C12_rows.
 
-(* ---- 3. C12_fragmentation (stretch): the buffer-level scanner is transparent.  NOT proved in general. *)
+(* ---- 3. C12_fragmentation: the buffer-level scanner is transparent.  Proved for ALL inputs. *)
 Definition chunks_ok (chunks : list bytes) : Prop := Forall (fun c => c <> []) chunks.
 
+(* every initial capacity (0 included: the first more() allocates), every delimiter byte (quote, CR, LF
+   included), every document = concat chunks (well-formed or not), every chunking into non-empty chunks,
+   EOF after or with the last data; the fuel is the one the model computes itself (scan_fuel), so "Ok" also
+   says: no Go panic (index, slice bounds) and no exhausted fuel *)
 Definition C12_fragmentation_full_statement : Prop :=
   forall (cap : nat) (delim : N) (chunks : list bytes) (t : rterm),
     chunks_ok chunks -> (t = TEofSep \/ t = TEofWith) ->
     scan cap delim chunks t = Ok (stream_scan delim (concat chunks), false).
 
-(* proved part: every document of at most 4 bytes over the alphabet {a, quote, comma, LF, CR}, EVERY chunking of it,
-   initial capacities 0..2, both EOF styles (a finite sweep; the bounds are in the statement) *)
+Theorem C12_buffer_refines_stream : C12_fragmentation_full_statement.
+Proof. exact buffer_refines_stream. Qed.
+Print Assumptions C12_buffer_refines_stream.
+
+(* two fragmentations (and capacities, and EOF styles) of one document give the same rows and error state *)
+Theorem C12_fragmentation (delim : N) (doc : bytes) (cap1 cap2 : nat) (frag1 frag2 : list bytes)
+        (t1 t2 : rterm) :
+  chunks_ok frag1 -> chunks_ok frag2 -> concat frag1 = doc -> concat frag2 = doc ->
+  (t1 = TEofSep \/ t1 = TEofWith) -> (t2 = TEofSep \/ t2 = TEofWith) ->
+  scan cap1 delim frag1 t1 = scan cap2 delim frag2 t2.
+Proof. exact (fragmentation_independent delim doc cap1 cap2 frag1 frag2 t1 t2). Qed.
+Print Assumptions C12_fragmentation.
+
+(* premises are satisfiable: a quoted field with a doubled quote and a CRLF row end, cut inside the doubled
+   quote and between CR and LF (capacity 1, EOF with the last byte) versus one byte per read (capacity 0) *)
+Example C12_fragmentation_example :
+  let doc := [97; 44; 34; 98; 34; 34; 99; 34; 13; 10; 100] in
+  let frag1 := [[97; 44; 34; 98; 34]; [34; 99; 34; 13]; [10; 100]] in
+  let frag2 := map (fun c => [c]) doc in
+  chunks_ok frag1 /\ chunks_ok frag2 /\ concat frag1 = doc /\ concat frag2 = doc /\
+  scan 1 44 frag1 TEofWith = Ok ([[[97]; [98; 34; 99]]; [[100]]], false) /\
+  scan 0 44 frag2 TEofSep = Ok ([[[97]; [98; 34; 99]]; [[100]]], false).
+Proof.
+  cbv zeta. repeat split; try (repeat constructor; discriminate); vm_compute; reflexivity.
+Qed.
+
+(* the premise "no empty chunk" is needed: a Read that returns (0, nil) -- which the io.Reader contract
+   discourages but permits -- makes nextUnquotedField / fields.next index data[cursor] with cursor = len.
+   The model faults exactly like the Go code (ReadCSV panics with "index out of range [0] with length 0"
+   on a reader whose first Read returns 0, nil). *)
+Example C12_zero_byte_read_panics :
+  scan 1024 44 [[]; [97; 44; 98; 10; 49; 44; 50; 10]] TEofSep = Panic.
+Proof. vm_compute. reflexivity. Qed.
+
+(* the fuel: the model's own scan_fuel is one instance; any fuel >= document length + 2 (for the loop over the
+   rows and for the loops inside a row) gives the same rows *)
+Theorem C12_fuel_suffices (cap : nat) (delim : N) (chunks : list bytes) (t : rterm) (fuel fin : nat) :
+  chunks_ok chunks -> (t = TEofSep \/ t = TEofWith) ->
+  (length (concat chunks) + 2 <= fuel)%nat -> (length (concat chunks) + 2 <= fin)%nat ->
+  exists tr, scan_loop fuel fin delim (new_reader cap chunks t) [] []
+             = Ok (stream_scan delim (concat chunks), false, tr).
+Proof. exact (scan_loop_fuel_suffices cap delim chunks t fuel fin). Qed.
+Print Assumptions C12_fuel_suffices.
+
+Example C12_fuel_example :
+  let frag := [[97; 44; 34; 98; 34]; [34; 99; 34; 13]; [10; 100]] in
+  chunks_ok frag /\ (length (concat frag) + 2 <= 13)%nat /\
+  exists tr, scan_loop 13 13 44 (new_reader 1 frag TEofWith) [] []
+             = Ok ([[[97]; [98; 34; 99]]; [[100]]], false, tr).
+Proof.
+  cbv zeta. split; [repeat constructor; discriminate|]. split; [vm_compute; lia|].
+  eexists. vm_compute. reflexivity.
+Qed.
+
+(* the finite sweep of the first wave is kept: every document of at most 4 bytes over the alphabet
+   {a, quote, comma, LF, CR}, EVERY chunking of it, initial capacities 0..2, both EOF styles *)
 Theorem C12_fragmentation_partial :
   forall doc chunks cap t,
     In doc (docs_upto frag_alphabet 4) -> In chunks (chunkings doc) ->
@@ -140,3 +199,40 @@ Theorem C12_fragmentation_partial :
     scan cap 44 chunks t = Ok (stream_scan 44 doc, false).
 Proof. exact frag_sweep. Qed.
 Print Assumptions C12_fragmentation_partial.
+
+(* ---- 4. end to end on the model the engine executes: ReadCSV over the buffer-level scanner with NewReader's
+   capacity (read_csv_buf) returns, for EVERY fragmentation of a well-formed document, the glue applied to the
+   rows the document was rendered from.  parse_int/parse_float/parse_bool are arbitrary. *)
+Definition C12_readcsv_fragmented_statement : Prop :=
+  forall (parse_int : bytes -> option Z) (parse_float : bytes -> option N) (parse_bool : bytes -> option bool)
+         (conf : csv_conf) (rows : list (list bytes)) (st : styles) (chunks : list bytes) (t : rterm),
+    wf_doc (cf_delim conf) rows st = true ->
+    chunks_ok chunks -> concat chunks = render (cf_delim conf) rows st ->
+    (t = TEofSep \/ t = TEofWith) ->
+    read_csv_buf parse_int parse_float parse_bool conf chunks t
+    = read_rows parse_int parse_float parse_bool conf rows false.
+
+Theorem C12_readcsv_fragmented : C12_readcsv_fragmented_statement.
+Proof. exact read_csv_buf_render. Qed.
+Print Assumptions C12_readcsv_fragmented.
+
+(* for every byte sequence, well-formed or not: ReadCSV over the buffer = ReadCSV of the specification level *)
+Theorem C12_readcsv_any_document
+        (parse_int : bytes -> option Z) (parse_float : bytes -> option N) (parse_bool : bytes -> option bool)
+        (conf : csv_conf) (chunks : list bytes) (t : rterm) :
+  chunks_ok chunks -> (t = TEofSep \/ t = TEofWith) ->
+  read_csv_buf parse_int parse_float parse_bool conf chunks t
+  = read_csv_spec parse_int parse_float parse_bool conf (concat chunks).
+Proof. exact (read_csv_buf_spec parse_int parse_float parse_bool conf chunks t). Qed.
+Print Assumptions C12_readcsv_any_document.
+
+(* premises are satisfiable: the document of C12_rfc_example cut into three chunks *)
+Example C12_readcsv_fragmented_example :
+  let rows := [[ [97]; [98; 59; 34; 99] ]; [ [] ]; [ [120; 13; 10; 121]; [] ]] in
+  let st : styles := ([([false; true], true); ([false], false); ([true; false], false)], false) in
+  let chunks := [[97; 59; 34; 98; 59; 34]; [34; 99; 34; 13; 10; 10; 34; 120; 13]; [10; 121; 34; 59]] in
+  wf_doc 59 rows st = true /\ chunks_ok chunks /\ concat chunks = render 59 rows st.
+Proof.
+  cbv zeta. split; [vm_compute; reflexivity|]. split; [repeat constructor; discriminate|].
+  vm_compute. reflexivity.
+Qed.
